@@ -294,14 +294,79 @@ fn gen_cases(ctx: &Ctx) -> Vec<Case> {
     cases
 }
 
+/// The same line with its operands arriving another way: registers through `.def` aliases and numbers
+/// through `.equ` symbols (path 1), or the whole line as the body of a macro with the operands as
+/// arguments (path 2). What the ISA cannot encode stays unencodable however it is spelled.
+fn respell(text: &str, path: u8) -> Option<String> {
+    let (mn, rest) = match text.split_once(' ') {
+        Some((m, r)) => (m, r),
+        None => (text, ""),
+    };
+    let ops: Vec<&str> = if rest.is_empty() { vec![] } else { rest.split(", ").collect() };
+    let is_num = |t: &str| -> bool { t == "(-9223372036854775807-1)" || (!t.is_empty() && t.trim_start_matches('-').chars().all(|c| c.is_ascii_digit()) && t.trim_start_matches('-').len() == t.len() - (t.starts_with('-') as usize) && t != "-") };
+    match path {
+        1 => {
+            let mut prelude = String::new();
+            let mut new_ops: Vec<String> = vec![];
+            let mut changed = false;
+            for (i, o) in ops.iter().enumerate() {
+                if let Some(n) = o.strip_prefix('r').filter(|n| !n.is_empty() && n.chars().all(|c| c.is_ascii_digit())) {
+                    prelude.push_str(&format!(".def c04_alias{} = r{}\n", i, n));
+                    new_ops.push(format!("c04_alias{}", i));
+                    changed = true;
+                } else if is_num(o) {
+                    prelude.push_str(&format!(".equ c04_value{} = {}\n", i, o));
+                    new_ops.push(format!("c04_value{}", i));
+                    changed = true;
+                } else if let Some((reg, q)) = o.split_once('+').filter(|(r, q)| ["X", "Y", "Z"].contains(r) && (is_num(q) || (q.starts_with('(') && q.ends_with(')') && is_num(&q[1..q.len() - 1])))) {
+                    prelude.push_str(&format!(".equ c04_value{} = {}\n", i, q));
+                    new_ops.push(format!("{}+c04_value{}", reg, i));
+                    changed = true;
+                } else {
+                    new_ops.push(o.to_string());
+                }
+            }
+            if !changed {
+                return None;
+            }
+            Some(format!("{}{}{}{}\n", prelude, mn, if new_ops.is_empty() { "" } else { " " }, new_ops.join(", ")))
+        }
+        _ => {
+            let params: Vec<String> = (0..ops.len()).map(|i| format!("@{}", i)).collect();
+            Some(format!(".macro c04_line\n\t{}{}{}\n.endm\nc04_line{}{}\n", mn, if params.is_empty() { "" } else { " " }, params.join(", "), if ops.is_empty() { "" } else { " " }, ops.join(", ")))
+        }
+    }
+}
+
 fn run_case(ctx: &Ctx, c: &Case) {
+    run_case_path(ctx, c, 0);
+    // registers, boundary cross products and kind confusions always take the other paths too; the
+    // numeric windows every fourth value (thorough: all)
+    let always = c.sig.ends_with("/reg-class") || c.sig.ends_with("/cross") || c.sig.ends_with("/kind");
+    if always || ctx.tier == Tier::Thorough || fw::hash_str(&c.text) % 4 == 0 {
+        run_case_path(ctx, c, 1);
+        run_case_path(ctx, c, 2);
+    }
+}
+
+fn run_case_path(ctx: &Ctx, c: &Case, path: u8) {
     let form = &isa::forms()[c.form];
     let h = header(form);
     let pad = if h.contains(".org") { REL_ORG as usize * 2 } else { 0 };
-    let src = format!("{}{}\n", h, c.text);
+    let (src, via) = match path {
+        0 => (format!("{}{}\n", h, c.text), ""),
+        p => match respell(&c.text, p) {
+            Some(t) => (format!("{}{}", h, t), if p == 1 { "/via-alias-or-symbol" } else { "/via-macro-argument" }),
+            None => return,
+        },
+    };
+    if path != 0 {
+        ctx.count(if path == 1 { "lines_respelled_via_alias_or_symbol" } else { "lines_respelled_via_macro_argument" }, 1);
+    }
+    let c = &Case { form: c.form, text: c.text.clone(), expect: c.expect.clone(), sig: format!("{}{}", c.sig, via) };
     let out = fw::build_str(&src);
     ctx.eval(1);
-    let replay = json!({"source": src, "form": form.name, "expect": format!("{:?}", c.expect), "sig": c.sig, "pad": pad, "observed": out.brief()});
+    let replay = json!({"source": src, "line": c.text, "path": path, "form": form.name, "expect": format!("{:?}", c.expect), "sig": c.sig, "pad": pad, "observed": out.brief()});
     let img_ok = |b: &fw::BuildResult, words: &Vec<u16>| -> bool {
         b.code.len() == pad + words.len() * 2 && b.code[pad..] == isa::words_to_bytes(words)[..] && b.code[..pad].iter().all(|x| *x == 0)
     };
@@ -457,7 +522,7 @@ pub fn run(ctx: &Ctx) -> i32 {
     ctx.exhaustive.store(true, std::sync::atomic::Ordering::Relaxed);
     fw::finish(
         ctx,
-        "per instruction form and legal anchor tuple, one operand at a time leaves its ISA domain: every register r0..r31 in each register position, every number in [lo-300, hi+300] plus ±2^k, ±2^k±1, ±i64::MAX and i64::MIN in each numeric position, operand-kind substitutions, 0..arity-1 and arity+1 operands, and for every two-operand form the complete cross product every register x every register / boundary value (thorough: two operands out at once, ±70000 windows on 16/22-bit fields); plus a device sweep: every device of the table x every form it has x each operand just outside, just inside and far outside (by 4095..2^32) its field; exhaustive for those windows; distinct_nontrivial = distinct must-reject source lines",
+        "per instruction form and legal anchor tuple, one operand at a time leaves its ISA domain: every register r0..r31 in each register position, every number in [lo-300, hi+300] plus ±2^k, ±2^k±1, ±i64::MAX and i64::MIN in each numeric position, operand-kind substitutions, 0..arity-1 and arity+1 operands, and for every two-operand form the complete cross product every register x every register / boundary value (thorough: two operands out at once, ±70000 windows on 16/22-bit fields); plus a device sweep: every device of the table x every form it has x each operand just outside, just inside and far outside (by 4095..2^32) its field; exhaustive for those windows; every register, cross-product and kind-confusion line (and a quarter of the numeric windows; thorough: all) once more with registers through `.def` aliases and numbers through `.equ` symbols, and once more as the body of a macro with the operands as arguments; distinct_nontrivial = distinct must-reject source lines",
         &[
             "legality = refmodel/isa.rs operand domains (manual transcription)",
             "8-bit immediates written as -128..-1 are accepted as two's complement or rejected (statement silent); ld/ldd and st/std cross-spellings are not probed except X+q, which no instruction encodes",
@@ -489,11 +554,12 @@ pub fn replay(ctx: &Ctx, case: &Value) -> i32 {
     let form_name = case["form"].as_str().unwrap_or("");
     let fi = isa::form_index(form_name);
     // regenerate the matching case so that the expectation comes from the model, not the file
-    let text = src.lines().last().unwrap_or("").to_string();
+    let text = case["line"].as_str().map(|s| s.to_string()).unwrap_or_else(|| src.lines().last().unwrap_or("").to_string());
+    let path = case["path"].as_u64().unwrap_or(0) as u8;
     let all = gen_cases(ctx);
     let mut found = false;
     for c in all.iter().filter(|c| c.form == fi && c.text == text) {
-        run_case(ctx, c);
+        run_case_path(ctx, c, path);
         found = true;
         break;
     }
